@@ -405,6 +405,17 @@ def gen_cases(rng, tier):
         es = [(u, v, (rng.randint(1, 3) if u >= n - t else rng.randint(20, 60))) for u in range(n) for v in range(u + 1, n)]
         rng.shuffle(es)
         graphs.append(((n, es), "tail-light"))
+    # ... and complete graphs in which the triangle on the LAST three vertices is the lightest cycle through the last vertex (the BFS root, with heavy edges) while
+    # many lighter cycles pass through its one non-tree edge: it is in the minimum basis and found in a late phase with at least |V| signed edges
+    for n, jit in (((7, 1), (7, 10), (8, 10), (11, 10)) if tier == "quick" else ((7, 1), (7, 10), (7, 10), (8, 1), (8, 10), (9, 10), (11, 10), (13, 10))):
+        hub = n - 1; o = {n - 3, n - 2}
+        def wgt(u, v):
+            q = {u, v}
+            b = 1 if q == o else 20 if hub in q and (q - {hub}) <= o else 30 if hub in q else 2 if q & o else 3
+            return b * jit + (rng.randint(0, jit - 1) if jit > 1 else 0)
+        es = [(u, v, wgt(u, v)) for u in range(n) for v in range(u + 1, n)]
+        rng.shuffle(es)
+        graphs.append(((n, es), "tail-hub"))
     cases = []
     pseed = 0
     for gi, (g, style) in enumerate(graphs):
